@@ -55,6 +55,19 @@ CHECKS['C09'] = dict(
          'makes views, reduce() returning its only element and in-place operators visible; sequences of consumers follow by induction.',
     note='Trusted: z3, symnp aliasing model (views share cell buffers; validated per path incl. post-state of the inputs on real numpy); A-pre fuzzy range.',
     ref='DESIGN.md §2 C09')
+CHECKS['C01'] = dict(
+    technique='solver-enumerated labelled DAGs x reference kinds (z3 rank constraints), each executed on the real Program.run with an execution-counting harness library; post-run access histories forked symbolically',
+    text='Bounded model checking of the real scheduler: z3 chooses, for every ordered pair of N commands, whether and how (direct, list, nested list) one references the other under an acyclicity constraint; '
+         'the explorer follows exactly the satisfiable assignments, builds each program through add_command / from_source and runs the real Program.run, then a solver-chosen history of further run()/result accesses. '
+         'Every command must execute exactly once, receive the finished results of its dependencies (structural result compared with a reference graph evaluation) and nothing may execute afterwards; the memo step is also checked from an arbitrary is_finished state.',
+    note='Trusted: z3 (structure enumeration), the harness library mpv/nodes/mpvnodes.py; values are concrete structural tuples, so every path is itself a real execution.',
+    ref='DESIGN.md §3 C01')
+CHECKS['C14'] = dict(
+    technique='solver-enumerated digraphs containing a cycle (transitive-closure constraint in z3) x reference kinds, each run on the real Program.run; outcome must be RecursiveModelStructure',
+    text='Bounded model checking: z3 enumerates every directed reference graph with at least one cycle (self-loops, 2-cycles, longer cycles, with tails or separate acyclic components) within the bound, through direct, list and nested-list '
+         'references and both construction paths; each is executed by the real Program.run with a lowered recursion limit and must be rejected with the recursive-model error - never return normally with unexecuted commands, never exhaust the stack.',
+    note='Trusted: z3 (structure enumeration under the cycle constraint), harness library; every path is a real execution.',
+    ref='DESIGN.md §3 C14')
 NOT_YET = {}
 ALL = ['C%02d' % i for i in range(1, 21)]
 
